@@ -41,8 +41,10 @@ LowestFree == CHOOSE c \in Conns : conn[c].ph = "free" /\ \A d \in Conns : conn[
 AnyFree == \E c \in Conns : conn[c].ph = "free"
 Chats == DOMAIN chats
 
-LoginVariants == IF Thin THEN {<<"", <<>>>>, <<"adm", <<1>>>>, <<"mute", <<2>>>>, <<"mod", <<3>>>>, <<"adm", <<2>>>>, <<"nobody", <<>>>>, <<"", <<5>>>>, <<"brk", <<>>>>, <<"brk", <<1>>>>}
-                 ELSE {"", "adm", "mute", "mod", "nobody", "brk"} \X {<<>>, <<1>>, <<2>>, <<3>>, <<5>>}
+(* "ADM", "Adm", "adm ", "GUEST": spellings that are NOT the login of any account (logins are compared exactly) *)
+LoginVariants == IF Thin THEN {<<"", <<>>>>, <<"adm", <<1>>>>, <<"mute", <<2>>>>, <<"mod", <<3>>>>, <<"adm", <<2>>>>, <<"nobody", <<>>>>, <<"", <<5>>>>, <<"brk", <<>>>>, <<"brk", <<1>>>>,
+                                 <<"ADM", <<1>>>>, <<"Adm", <<1>>>>, <<"adm ", <<1>>>>, <<"GUEST", <<>>>>}
+                 ELSE {"", "adm", "mute", "mod", "nobody", "brk", "ADM", "Guest"} \X {<<>>, <<1>>, <<2>>, <<3>>, <<5>>}
 
 StepsOf(c) ==
   IF conn[c].ph = "open" THEN
@@ -78,8 +80,9 @@ StepsOf(c) ==
 GlobalSteps ==
   (IF AnyFree THEN {[op |-> "connect", c |-> LowestFree, addr |-> a] : a \in Addrs} ELSE {})
   \cup (IF AnyFree THEN {[op |-> "dial", c |-> LowestFree, addr |-> a] : a \in Addrs} ELSE {})   \* accepted, handshake still to come
-  \cup {[op |-> "banadd", addr |-> a, class |-> k] : a \in {x \in Addrs : BanOf(x) = "none"}, k \in {"soon", "past", "perm"}}
-  \cup (IF \E a \in DOMAIN bans : bans[a] = "soon" THEN {[op |-> "wait"]} ELSE {})
+  \cup {[op |-> "banadd", addr |-> a, class |-> k] : a \in {x \in Addrs : BanOf(x) \in {"none", "soon"}}, k \in {"soon", "past", "perm"}}   \* (also over a ban that is still running)
+  \cup (IF (\E a \in DOMAIN bans : bans[a] = "soon") \/ (\E i \in DOMAIN hist : hist[i].op = "banadd" /\ hist[i].class = "soon" /\ \A j \in (i+1)..Len(hist) : hist[j].op # "wait")
+          THEN {[op |-> "wait"]} ELSE {})   \* time passes beyond every short ban planted so far, replaced ones included
   \cup (IF \E c \in Conns : conn[c].ph \in {"in", "open"} THEN {[op |-> "restart"]} ELSE {})
   \cup (IF Live # {} THEN {[op |-> "churn", n |-> IDMod - 1]} ELSE {})
   \cup (IF AnyFree THEN {[op |-> "rawfail", c |-> LowestFree, addr |-> a, hs |-> h, matches |-> FALSE, sentFirst |-> TRUE,
